@@ -276,6 +276,14 @@ type Hooks struct {
 	// RenameYield makes the instant between close and rename of an atomic put a
 	// scheduling point (other tasks may run, crash snapshots see the state).
 	RenameYield bool
+	// RawRoot, when set, turns every write, close and rename of a file below that directory
+	// into a scheduling and fault point of the task that runs now, although no Bucket wrapper
+	// sits in front of the disk bucket (code that creates its own storageos provider, such as
+	// a CLI command run in-process). Creation itself cannot be failed from here.
+	RawRoot  string
+	RawName  string            // label prefix of raw operations (the name a Bucket wrapper would have)
+	rawFinal map[string]string // temp file name -> final path, for labels
+	wrapped  map[string]bool   // files created through a Bucket wrapper
 
 	mu          sync.Mutex
 	createdName string
@@ -305,7 +313,26 @@ func NewHooks(s *sched.Sim) *Hooks {
 		closeFault:  map[string]error{},
 		renameFault: map[string]*renameTrick{},
 		renameYield: map[string]string{},
+		rawFinal:    map[string]string{},
+		wrapped:     map[string]bool{},
 	}
+}
+
+// rawLabel returns the stable label of a file below RawRoot ("" if the file is elsewhere).
+func (h *Hooks) rawLabel(name string) string {
+	if h.RawRoot == "" || !strings.HasPrefix(name, h.RawRoot+string(filepath.Separator)) {
+		return ""
+	}
+	h.mu.Lock()
+	fin, wrapped := h.rawFinal[name], h.wrapped[name]
+	h.mu.Unlock()
+	if wrapped {
+		return ""
+	}
+	if fin != "" {
+		name = fin
+	}
+	return h.RawName + ":" + filepath.ToSlash(strings.TrimPrefix(name, h.RawRoot+string(filepath.Separator)))
 }
 
 func (h *Hooks) clearCreated() {
@@ -319,6 +346,10 @@ func (h *Hooks) takeCreated() (string, string) {
 	defer h.mu.Unlock()
 	n, f := h.createdName, h.createdFin
 	h.createdName, h.createdFin = "", ""
+	if n != "" {
+		// a Bucket wrapper looks after this file: the raw mode leaves it alone
+		h.wrapped[n] = true
+	}
 	return n, f
 }
 
@@ -367,6 +398,11 @@ func (h *Hooks) restoreRename(name string) {
 func (h *Hooks) Point(ctx context.Context, name string, args []string) {
 	switch name {
 	case "os.put.created":
+		if h.RawRoot != "" && args[1] != "" && strings.HasPrefix(args[0], h.RawRoot+string(filepath.Separator)) {
+			h.mu.Lock()
+			h.rawFinal[args[0]] = args[1]
+			h.mu.Unlock()
+		}
 		if sched.ProcOf(ctx) == nil {
 			return
 		}
@@ -376,6 +412,12 @@ func (h *Hooks) Point(ctx context.Context, name string, args []string) {
 		h.mu.Unlock()
 	case "os.atomic.beforeRename":
 		tmp, dest := args[0], args[1]
+		if label := h.rawLabel(tmp); label != "" {
+			d := h.S.YieldCurrentAs("rename", label)
+			if d.Fault == "rename-err" {
+				h.setRenameFault(tmp)
+			}
+		}
 		h.mu.Lock()
 		label, yield := h.renameYield[tmp]
 		delete(h.renameYield, tmp)
@@ -415,6 +457,17 @@ func (h *Hooks) Fault(ctx context.Context, name string, arg string, err error) e
 	if name != "os.close" {
 		return err
 	}
+	if label := h.rawLabel(arg); label != "" && err == nil {
+		d := h.S.YieldCurrentAs("close", label)
+		if d.Fault == "close-err" {
+			h.S.Fired(d.Fault)
+			return d.Err("close " + label)
+		}
+		if d.Fault == "rename-err" {
+			h.setRenameFault(arg)
+		}
+		return err
+	}
 	h.mu.Lock()
 	ierr := h.closeFault[arg]
 	delete(h.closeFault, arg)
@@ -427,6 +480,22 @@ func (h *Hooks) Fault(ctx context.Context, name string, arg string, err error) e
 
 // Shorten implements verifhook.Handler.
 func (h *Hooks) Shorten(name string, p []byte) ([]byte, error) {
+	if label := h.rawLabel(name); label != "" {
+		d := h.S.YieldCurrentAs("write", label, sched.WithSize(len(p)))
+		switch d.Fault {
+		case "write-err":
+			h.S.Fired(d.Fault)
+			return p[:0], d.Err("write " + label)
+		case "short-write":
+			h.S.Fired(d.Fault)
+			k := 0
+			if len(p) > 0 {
+				k = d.Arg % len(p)
+			}
+			return p[:k], d.Err("write " + label)
+		}
+		return p, nil
+	}
 	h.mu.Lock()
 	wf, ok := h.writeFault[name]
 	delete(h.writeFault, name)
